@@ -9,23 +9,35 @@
   an event list is a behaviour iff the run function returns `some` (an event that would
   block, or that the API contract forbids, is not enabled).
 
-  Not proved (stated here so that the gap stays visible):
-  * `tree_close_propagates` — ∀ trees built with conv/copy/merge over pipes, after every
-    reader the caller holds is closed and every forwarder has noticed, every pipe's reading
-    side is closed, exactly once.  Proved per component (`send_reports_closed`,
-    `copy_source_closed_once`), shown on instances below, and asserted on every generated
-    tree by the harness at tear-down (a tree where the *model* does not close a pipe aborts
-    the run as a model error); there is no induction over arbitrary trees.
-  * `no_deadlock` for whole trees — only the per-component progress lemmas
-    (`pipe_progress`, `copy_progress`, `merge_progress`).
+  Whole networks (section "whole networks" below; EinoV/Spec/C08Tree.lean, EinoV/Spec/C08Close.lean,
+  EinoV/Proofs/C08Tree/*.lean): for EVERY network the constructors can build and EVERY schedule
+  * `tree_delivery`, `tree_delivery_prefix` — every held reader that reads to io.EOF received
+    exactly a sequence its specification `Den` (`tree_spec`) allows: each item once, in order,
+    through every nesting; at every earlier moment it has received a prefix of such a sequence;
+  * `tree_close_never_twice`, `tree_close_propagates` — `Close` never closes a source twice; when
+    every reader is closed and every forwarder has noticed, every pipe is closed, every cell has
+    closed its source exactly once;
+  * `tree_no_blocked_writer_after_close`, `tree_eof_progress_partial` — progress, partial (the
+    full statement and what is missing are in the comment of that section).
+  Still not proved:
   * "told on its next send" is false through a forwarding goroutine:
-    `writer_told_late_through_forwarder` (known finding).
+    `writer_told_late_through_forwarder` (known finding); `tree_close_propagates` therefore has
+    the hypothesis that the forwarders have noticed.
+  * whole-tree deadlock freedom with open writers (see `tree_eof_progress_partial`).
 -/
 import EinoV.Model.C08
 import EinoV.Model.C08Net
 import EinoV.Proofs.C08
 import EinoV.Gen.FactsC08
 import EinoV.Expected.C08
+import EinoV.Spec.C08Tree
+import EinoV.Proofs.C08Tree.Delivery
+import EinoV.Proofs.C08Tree.Oracle
+import EinoV.Proofs.C08Tree.Unfold
+import EinoV.Spec.C08Close
+import EinoV.Proofs.C08Tree.ClosePropagate
+import EinoV.Proofs.C08Tree.Progress
+import EinoV.Proofs.C08Tree.Prefix
 
 namespace EinoV.C08
 open EinoV.Gen
@@ -322,7 +334,7 @@ def drainBoundsAfter (F : Facts) (ops : List Op) (p : Nat) : Option (List (Optio
 def treeOps : List Op :=
   [.pipe 2, .pipe 0, .conv 0 ⟨100, 2, 0, 3, 1⟩, .merge [2, 1], .copy 4 3, .close 6, .close 7]
 
-/-- **tree_close_propagates (instances only).** In this tree closing the last copy closes
+/-- an instance of close propagation (the general theorem is `tree_close_propagates` below): in this tree closing the last copy closes
     the merged reader; pipe 1 (merged directly) reports it on the next `Send`. -/
 example : sendCodesAfter factsGen treeOps 1 = some [0] ∧
     sendCodesAfter factsGen (treeOps ++ [.close 8]) 1 = some [2] := by decide
@@ -358,6 +370,293 @@ example : (runOps factsGen 60 [{}] 0
 example : (runOps factsGen 60 [{}] 0
     [.pipe 2, .copy 0 2, .send 0 ⟨1, 0⟩ false, .send 0 ⟨2, 0⟩ false,
      .recv 2 (.item ⟨1, 0⟩), .recv 3 (.item ⟨2, 0⟩)]).toOption.isSome = false := by decide
+
+/-! ## whole networks: every tree of copy / merge / convert, every schedule
+
+  The theorems of this section are about the network model the oracle runs
+  (`EinoV/Model/C08Net.lean`): about EVERY network that the constructors `pipe`, `arr`, `conv`,
+  `copy n`, `merge` can build (any size, depth, number of copies and sources; constructors and
+  traffic interleaved in any way) and EVERY schedule of `Send` / `Close(writer)` / `Recv` /
+  `Close(reader)` (`Behaves`, `EinoV/Spec/C08Tree.lean`).  The networks are DAGs whose only
+  sharing is through the cells of `Copy`; every edge points to a smaller index, so the
+  "structural induction on the tree" is the induction along `Edge` / over the derivations of
+  `Den` and `Recv` (`EinoV/Proofs/C08Tree/*.lean`). -/
+
+/-- the source facts are the ones the whole-network theorems are proved for (fact tie) -/
+theorem factsGen_good : GoodFacts factsGen := ⟨by decide, by decide, by decide⟩
+
+/-- ... and they are the ones the oracle runs with -/
+theorem expected_facts_good : GoodFacts Expected.C08.facts := ⟨by decide, by decide, by decide⟩
+
+/-- **tree_wellformed.** Every network reachable from the empty one by enabled operations is
+    well formed: references point to earlier nodes of the right kind, every reader has AT MOST
+    ONE consumer (`ShInv.lin`; the children of one `Copy` share its cell and nothing else), the
+    readers the caller holds are consumed by nobody, every cursor of a copy lies within the
+    shared list.  This is the tree structure the other theorems induct over. -/
+theorem tree_wellformed (fuel : Nat) (ops : List Op) (net : Net)
+    (h : Behaves factsGen fuel {} ops net) : Inv net :=
+  h.inv factsGen_good Inv.empty
+
+/-- **oracle_runs_are_schedules.** The correspondence check is a check of these schedules: every
+    candidate state the oracle keeps after accepting a trace (`runOps`, which the harness
+    compares the Go implementation with, operation by operation) is reached from the empty
+    network by that trace as a schedule (`recvAll` refines the relation `Recv`, every other
+    operation is `applyOp` itself). -/
+theorem oracle_runs_are_schedules (fuel : Nat) (ops : List Op) (nets' : List Net) (cr : List Nat)
+    (h : runOps Expected.C08.facts fuel [{}] 0 ops = .ok (nets', cr)) :
+    ∀ n' ∈ nets', Behaves Expected.C08.facts fuel {} ops n' := by
+  intro n' hn'
+  obtain ⟨n, hn, hb⟩ := runOps_behaves expected_facts_good ops [{}] 0 h n' hn'
+  simp at hn; subst hn; exact hb
+
+/-- **tree_spec.** The SPECIFIED item sequence `Den fut net r` of reader `r`, as a function of
+    what the sources hold (`buf`, `rest`) and of what their writers will still get accepted
+    (`fut`), by recursion over the tree: a pipe delivers its buffer and then the future items;
+    an array its items; a converted reader the item-wise image of what its source delivers,
+    no-value items dropped (`convItem`); a copy what is left for it of the shared list followed
+    by what the source of the cell still delivers (nothing once the cell saw `io.EOF`), the same
+    for every copy of the cell whatever the other copies do; a merged reader an interleaving
+    (`Inter`: every item of every remaining source exactly once, each source in its own order)
+    of what its remaining sources deliver; a forwarding goroutine is transparent. -/
+theorem tree_spec (fut : Nat → List Item) (net : Net) (id : Nat) (l : List Item) :
+    Den fut net id l ↔ DenBody fut net id l := den_unfold fut net id l
+
+/-- a concrete network: pipe 0 (closed by its writer, items 2 and 3 buffered) under a convert that
+    adds 100, copied twice; item 101 is already in the shared list; copy 3 has not read yet,
+    copy 4 has read one item -/
+def exNet : Net :=
+  { nodes := #[.pipe ⟨2, [⟨2, 0⟩, ⟨3, 0⟩], true, false⟩, .conv 0 ⟨100, 0, 0, 0, 0⟩,
+               .parent 1 ⟨[⟨101, 0⟩], false, [some 0, some 1], 0, 0⟩, .child 2 0, .child 2 1],
+    readers := [3, 4], writers := [] }
+
+/-- the specification is exact: without a merge below it, exactly ONE sequence is specified for a
+    reader — here `[101, 102, 103]` for the copy that has read nothing (and nothing else, in no
+    other order, with no item twice) -/
+example (fut : Nat → List Item) (l : List Item) :
+    Den fut exNet 3 l ↔ l = [⟨101, 0⟩, ⟨102, 0⟩, ⟨103, 0⟩] := by
+  constructor
+  · intro h
+    obtain ⟨k, hk, ⟨_, l1, h1, rfl⟩ | ⟨he, _⟩⟩ := Den.child_inv (par := 2) (idx := 0) (src := 1)
+      (core := ⟨[⟨101, 0⟩], false, [some 0, some 1], 0, 0⟩) rfl rfl h
+    · obtain ⟨l2, h2, rfl⟩ := Den.conv_inv (src := 0) (g := ⟨100, 0, 0, 0, 0⟩) rfl h1
+      have h3 := Den.pipe_inv (p := ⟨2, [⟨2, 0⟩, ⟨3, 0⟩], true, false⟩) rfl h2
+      subst h3
+      simp at hk; subst hk
+      simp [convItem, ConvSpec.fn]
+    · cases he
+  · rintro rfl
+    have h0 : Den fut exNet 0 [⟨2, 0⟩, ⟨3, 0⟩] :=
+      Den.pipe (p := ⟨2, [⟨2, 0⟩, ⟨3, 0⟩], true, false⟩) rfl
+    have h1 : Den fut exNet 1 [⟨102, 0⟩, ⟨103, 0⟩] := by
+      have := Den.conv (g := ⟨100, 0, 0, 0, 0⟩) (id := 1) rfl h0
+      simpa [convItem, ConvSpec.fn] using this
+    exact Den.childOpen (id := 3) (par := 2) (idx := 0) (k := 0)
+      (core := ⟨[⟨101, 0⟩], false, [some 0, some 1], 0, 0⟩) rfl rfl rfl rfl h1
+
+/-- **tree_delivery.** In every reachable network `net0`, for every reader `r` the caller holds
+    there, under EVERY schedule `ops` that continues from `net0` (sends, writer closes, receives
+    and closes of any reader in any order, further constructors on other readers) and in which
+    `r` finally reads `io.EOF`: the items `r` was handed during the schedule, in order
+    (`gotBy r ops`), are exactly one of the sequences specified for `r` in `net0` with the items
+    the writers got accepted during the schedule (`accBy ops`) — every item exactly once, in
+    order, through every nesting of copy / merge / convert; nothing is lost, duplicated or
+    reordered by whatever happens to the other readers of the network.  Proved for all source
+    facts with `GoodFacts` (`factsGen_good`, `expected_facts_good`). -/
+theorem tree_delivery {F : Facts} (g : GoodFacts F) (fuel : Nat) (ops0 ops : List Op) (net0 net' : Net) (r : Nat)
+    (h0 : Behaves F fuel {} ops0 net0) (hr : r ∈ net0.readers)
+    (h : Behaves F fuel net0 (ops ++ [.recv r .eof]) net') :
+    Den (accBy ops) net0 r (gotBy r ops) :=
+  delivery_core g ops net0 net' r (h0.inv g Inv.empty) hr h
+
+/-- **tree_delivery_prefix.** Delivery at every moment, not only at `io.EOF`: in every reachable
+    network, under every schedule `ops` continuing from `net0`, for every reader `r` the caller
+    holds before and after it: the items `r` has been handed so far are a PREFIX of one of the
+    sequences specified for `r` in `net0` with the items accepted so far — no reader, whether it
+    later reads on, closes early or is never read again, is ever handed a wrong, duplicated or
+    reordered item.  (`l` = what `r` is still specified to deliver if no further item is accepted;
+    it exists because every claimed reader has a specified sequence, `den_exists`.) -/
+theorem tree_delivery_prefix {F : Facts} (g : GoodFacts F) (fuel : Nat) (ops0 ops : List Op) (net0 net1 : Net) (r : Nat)
+    (h0 : Behaves F fuel {} ops0 net0) (hr : r ∈ net0.readers)
+    (h : Behaves F fuel net0 ops net1) (hr1 : r ∈ net1.readers) :
+    ∃ l, Den (accBy ops) net0 r (gotBy r ops ++ l) :=
+  delivery_prefix g ops net0 net1 r (h0.inv g Inv.empty) (h0.closeInv g Inv.empty closeInv_empty) hr h hr1
+
+/-- the building part of the non-vacuity examples: copy(2) of merge(convert(pipe 0), pipe 1);
+    readers 6 and 7 are the copies, node 3 is the forwarding goroutine of the convert -/
+def treeOps2 : List Op :=
+  [.pipe 2, .pipe 1, .conv 0 ⟨100, 2, 0, 3, 1⟩, .merge [2, 1], .copy 4 2]
+
+/-- non-vacuity of `tree_delivery`: on that tree, a schedule in which both pipes are written,
+    both copies read in different orders, the writers close and copy 6 reads `io.EOF` -/
+example : ∃ net0 net', Behaves factsGen 60 {} treeOps2 net0 ∧ 6 ∈ net0.readers ∧
+    Behaves factsGen 60 net0
+      ([.send 0 ⟨2, 0⟩ false, .send 0 ⟨1, 0⟩ false, .send 1 ⟨50, 0⟩ false,
+        .recv 6 (.item ⟨50, 0⟩), .recv 7 (.item ⟨50, 0⟩), .recv 7 (.item ⟨101, 101⟩), .recv 6 (.item ⟨101, 101⟩),
+        .closeSend 0, .closeSend 1, .recv 7 .eof] ++ [.recv 6 .eof]) net' :=
+  twoPhaseOK_spec factsGen_good (by decide)
+
+/-- non-vacuity of `tree_delivery_prefix`: the same tree, copy 7 has read two items and nobody
+    has closed anything; copy 6 has read one -/
+example : ∃ net0 net1, Behaves factsGen 60 {} treeOps2 net0 ∧ 7 ∈ net0.readers ∧
+    Behaves factsGen 60 net0
+      [.send 0 ⟨2, 0⟩ false, .send 0 ⟨1, 0⟩ false, .send 1 ⟨50, 0⟩ false,
+        .recv 6 (.item ⟨50, 0⟩), .recv 7 (.item ⟨50, 0⟩), .recv 7 (.item ⟨101, 101⟩)] net1 ∧
+    7 ∈ net1.readers :=
+  heldOK_spec factsGen_good (by decide)
+
+/-- ... and there the conclusion says: copy 6 was handed `[50, 101]`, which is one of the two
+    interleavings of pipe 1's `[50]` with the converted `[101]` of pipe 0's `[2, 1]` (item 2 is
+    dropped as no-value, item 1 becomes the convert's own error 101) -/
+example : gotBy 6 [.send 0 ⟨2, 0⟩ false, .send 0 ⟨1, 0⟩ false, .send 1 ⟨50, 0⟩ false,
+        .recv 6 (.item ⟨50, 0⟩), .recv 7 (.item ⟨50, 0⟩), .recv 7 (.item ⟨101, 101⟩), .recv 6 (.item ⟨101, 101⟩),
+        .closeSend 0, .closeSend 1, .recv 7 .eof] = [⟨50, 0⟩, ⟨101, 101⟩] ∧
+    accBy [.send 0 ⟨2, 0⟩ false, .send 0 ⟨1, 0⟩ false, .send 1 ⟨50, 0⟩ false,
+        .recv 6 (.item ⟨50, 0⟩), .closeSend 0] 0 = [⟨2, 0⟩, ⟨1, 0⟩] := by decide
+
+/-! ### close propagation through whole networks
+
+  `Claimed net H k` (`EinoV/Spec/C08Close.lean`): following the unique consumers of node `k`
+  downwards through converts and merged readers one reaches a reader the caller holds, a `Copy`
+  cell with an open copy, or a forwarding goroutine that has not exited.  The invariant
+  `CloseInv` says that the closed flags of the stateful nodes (`recvClosed` of a pipe, the nil
+  cursor of a copy, the state of a forwarder) tell exactly that, and that every cell counts its
+  closed copies. -/
+
+/-- **tree_close_invariant.** In every reachable network: a pipe's reading side is open iff
+    somebody still claims it; a copy's cursor is non-nil iff somebody claims that copy; a
+    forwarder whose merged reader is claimed is running (or exited on `io.EOF`), one whose merged
+    reader was closed is not running; every cell's `closedNum` is the number of its closed
+    copies and it has closed its source (once) iff all of them are closed. -/
+theorem tree_close_invariant {F : Facts} (g : GoodFacts F) (fuel : Nat) (ops : List Op) (net : Net)
+    (h : Behaves F fuel {} ops net) : CloseInv net :=
+  h.closeInv g Inv.empty closeInv_empty
+
+/-- **tree_close_never_twice.** At every point of every schedule, `Close` of any reader the caller
+    holds is enabled, through every nesting of copy / merge / convert: the model closes the
+    reading side of a pipe only if it is open (`Pipe.closeRecv` is not enabled on a closed one,
+    the oracle reports `mismatch:model-double-close`), so no source is ever closed a second
+    time — a cell closes its source when, and only when, its last copy closes. -/
+theorem tree_close_never_twice {F : Facts} (g : GoodFacts F) (fuel : Nat) (ops : List Op) (net : Net)
+    (h : Behaves F fuel {} ops net) (r : Nat) (hr : r ∈ net.readers) (hf : r < fuel) :
+    ∃ net', Step F fuel net (.close r) net' := by
+  obtain ⟨n1, hc⟩ := close_succeeds g (h.inv g Inv.empty) (h.closeInv g Inv.empty closeInv_empty) hr hf
+  refine ⟨{ n1 with readers := n1.readers.erase r }, .other (cr := []) rfl ?_⟩
+  simp only [applyOp]
+  simp [hr, hc]
+
+/-- ... and a forwarding goroutine whose stream was closed can always notice it (closing its own
+    source), whenever it gets to it. -/
+theorem tree_forwarder_can_notice {F : Facts} (g : GoodFacts F) (fuel : Nat) (ops : List Op) (net : Net)
+    (h : Behaves F fuel {} ops net) (f src : Nat) (hf : net.nodes[f]? = some (.fpipe src .pending))
+    (hfu : src < fuel) : ∃ net', resolveOne F fuel net f = some net' :=
+  resolve_succeeds g (h.inv g Inv.empty) (h.closeInv g Inv.empty closeInv_empty) hf hfu
+
+/-- **tree_close_propagates.** After ANY schedule on ANY network: if every reader the caller held
+    has been closed (none is held any more) and every forwarding goroutine has noticed
+    (`pendings net = []`), then the reading side of EVERY pipe of the network is closed — its
+    writer is told on its next `Send` (`send_reports_closed`) — every `Copy` cell has closed its
+    source exactly once (`srcClosed = 1`, all cursors nil) and every forwarder has exited. -/
+theorem tree_close_propagates {F : Facts} (g : GoodFacts F) (fuel : Nat) (ops : List Op) (net : Net)
+    (h : Behaves F fuel {} ops net) (hr : net.readers = []) (hp : pendings net = []) :
+    (∀ (k : Nat) (p : Pipe), net.nodes[k]? = some (.pipe p) → p.recvClosed = true) ∧
+    (∀ (P src : Nat) (core : CopyCore), net.nodes[P]? = some (.parent src core) →
+      core.srcClosed = 1 ∧ ∀ idx, idx < core.cursors.length → core.cursors[idx]? = some none) ∧
+    (∀ (f src : Nat) (st : FwdSt), net.nodes[f]? = some (.fpipe src st) → st = .ended ∨ st = .stopped) :=
+  all_closed (h.inv g Inv.empty) (h.closeInv g Inv.empty closeInv_empty) hr (fun _ _ => pendings_nil hp)
+
+/-- non-vacuity of `tree_close_propagates`: on copy(2) of merge(convert(pipe 0), pipe 1), with
+    traffic, both copies are closed and the forwarder of the convert notices when pipe 0's
+    writer sends again (the `Send` that is told `closed`) -/
+example : ∃ net, Behaves factsGen 60 {}
+      (treeOps2 ++ [.send 0 ⟨1, 0⟩ false, .send 1 ⟨50, 0⟩ false, .recv 6 (.item ⟨50, 0⟩),
+        .close 6, .close 7, .send 0 ⟨7, 7⟩ true]) net ∧
+    net.readers = [] ∧ pendings net = [] :=
+  allClosedOK_spec factsGen_good (by decide)
+
+/-- ... while right after the two closes the forwarder has not noticed yet (`pendings = [3]`):
+    the hypothesis is needed (`writer_told_late_through_forwarder`) -/
+example : (match runOps factsGen 60 [{}] 0 (treeOps2 ++ [.close 6, .close 7]) with
+    | .ok (n :: _, _) => (n.readers, pendings n, (getPipe n 0).map (·.recvClosed), (getPipe n 1).map (·.recvClosed))
+    | _ => ([], [], none, none)) = ([], [3], some false, some true) := by decide
+
+/-! ### no blocked writer / progress through whole networks (partial)
+
+  FULL STATEMENT (not proved; kept visible):
+    tree_progress : ∀ reachable net, (some writer still has something to send ∨ some held reader
+      has not seen io.EOF) → some step of the network is enabled (a `Send`, a `Recv` of a held
+      reader, or a forwarder noticing), for every tree and every schedule.
+  It is FALSE in the network model as it stands, because `Recv` is one atomic step there: a
+  convert that drops every buffered item blocks *without consuming* them, so the pipe stays full
+  and its writer blocked (`atomic_recv_blocks_behind_dropping_convert`, a negation witness on the
+  model, not on the code: the real `streamReaderWithConvert.recv` consumes the dropped items
+  before it blocks).  What is proved for every tree and every schedule:
+    * `tree_no_blocked_writer_after_close` — once every reader is closed and every forwarder has
+      noticed, no `Send` can block: it returns `closed` at once;
+    * `tree_eof_progress_partial` — once every writer has closed, every held reader can take a
+      `Recv` step, in every network none of whose converts drops items (`NoSkip`), for the
+      relational semantics `Recv` (of which the executable `recvAll` is a refinement).
+  MISSING for the full statement: (1) a model of `Recv` that is not atomic over dropped items (then
+  the `NoSkip` hypothesis and the witness go away); the loop over dropped items needs a
+  termination measure = the length of the specified remaining sequence `Den`, i.e. uniqueness of
+  `Den` up to permutation; (2) completeness of `recvAll` w.r.t. `Recv` (the closed-source-first
+  order of the select loop) to state enabledness for the executable function; (3) the case of open
+  writers (a ready source below every blocked reader), which needs the same two ingredients. -/
+
+/-- **tree_no_blocked_writer_after_close.** After any schedule on any network, if every reader has
+    been closed and every forwarder has noticed, a `Send` on any pipe whose writer is still open
+    does not block and is not accepted: it returns `closed = true` at once. -/
+theorem tree_no_blocked_writer_after_close {F : Facts} (g : GoodFacts F) (fuel : Nat) (ops : List Op) (net : Net)
+    (h : Behaves F fuel {} ops net) (hr : net.readers = []) (hp : pendings net = [])
+    (k : Nat) (p : Pipe) (hk : net.nodes[k]? = some (.pipe p)) (hs : p.sendClosed = false) (it : Item) :
+    p.send it = some (p, true) := by
+  have hc := (tree_close_propagates g fuel ops net h hr hp).1 k p hk
+  simp [Pipe.send, hs, hc]
+
+/-- **tree_eof_progress_partial.** In every reachable network none of whose converts drops items,
+    once every writer has closed, every reader the caller holds can take a `Recv` step (an item
+    or `io.EOF`): through every nesting of copy / merge / convert no reader is stuck behind a
+    closed source, a drained copy, an exited or exiting forwarder (its `Close` of its source
+    succeeds, `tree_close_never_twice`).  Partial: see the comment above. -/
+theorem tree_eof_progress_partial {F : Facts} (g : GoodFacts F) (fuel : Nat) (ops : List Op) (net : Net)
+    (h : Behaves F fuel {} ops net) (hw : AllSendClosed net) (hs : NoSkip net) (r : Nat) (hr : r ∈ net.readers) :
+    ∃ obs net', Step F fuel net (.recv r obs) net' := by
+  have i := h.inv g Inv.empty
+  have p : PHyp net net.readers :=
+    ⟨i.sh, i.st, fun r hr => i.rd.free' hr, h.closeInv g Inv.empty closeInv_empty, hw, hs⟩
+  obtain ⟨res, net', tr, hrec⟩ := recv_enabled g net.readers (r + 1) r (Nat.lt_succ_self _) net p
+    (.of_root (.inl hr)) (i.rd.kind r hr)
+  exact ⟨res, net', .recv hr hrec⟩
+
+/-- **atomic_recv_blocks_behind_dropping_convert (negation witness for whole-tree progress in the
+    atomic model).** pipe(1) read through a convert that drops everything: after one accepted
+    `Send` the pipe is full, the model's `Recv` of the convert is not enabled (`recvAll = []`: it
+    would drop the item and then block, and the model does not split the call), and the next
+    `Send` may block (`sendCode = 0`). -/
+theorem atomic_recv_blocks_behind_dropping_convert :
+    (match runOps factsGen 60 [{}] 0 [.pipe 1, .conv 0 ⟨0, 1, 0, 0, 0⟩, .send 0 ⟨5, 0⟩ false] with
+     | .ok (n :: _, _) => ((recvAll factsGen 60 n 1).isEmpty, sendCode factsGen 60 n 0, n.readers)
+     | _ => (false, 9, [])) = (true, 0, [1]) := by decide
+
+/-- non-vacuity of `tree_eof_progress_partial`: copy(2) of merge(convert(pipe 0), pipe 1) with a
+    convert that drops nothing, both writers closed with items still buffered, copy 6 partly read -/
+example : ∃ net, Behaves factsGen 60 {}
+      [.pipe 2, .pipe 1, .conv 0 ⟨100, 0, 0, 3, 1⟩, .merge [2, 1], .copy 4 2,
+       .send 0 ⟨2, 0⟩ false, .send 0 ⟨1, 0⟩ false, .send 1 ⟨50, 0⟩ false, .recv 6 (.item ⟨50, 0⟩),
+       .closeSend 0, .closeSend 1] net ∧
+    AllSendClosed net ∧ NoSkip net ∧ 6 ∈ net.readers ∧ 7 ∈ net.readers := by
+  have h : (match runOps factsGen 60 [{}] 0
+      [.pipe 2, .pipe 1, .conv 0 ⟨100, 0, 0, 3, 1⟩, .merge [2, 1], .copy 4 2,
+       .send 0 ⟨2, 0⟩ false, .send 0 ⟨1, 0⟩ false, .send 1 ⟨50, 0⟩ false, .recv 6 (.item ⟨50, 0⟩),
+       .closeSend 0, .closeSend 1] with
+      | .ok (n :: _, _) => allSendClosedB n && noSkipB n && n.readers.contains 6 && n.readers.contains 7
+      | _ => false) = true := by decide
+  split at h
+  · rename_i n rest cr h0
+    obtain ⟨m, hm, hb⟩ := runOps_behaves factsGen_good _ _ _ h0 n (by simp)
+    simp at hm; subst hm
+    simp only [Bool.and_eq_true] at h
+    exact ⟨n, hb, allSendClosedB_spec h.1.1.1, noSkipB_spec h.1.1.2, by simpa using h.1.2, by simpa using h.2⟩
+  · cases h
 
 /-! ## non-vacuity: concrete non-trivial behaviours -/
 
